@@ -112,7 +112,7 @@ def main(chk):
     chk.assumptions += ['the engine\'s propagation model is the reference (no VTL 2.1 text exists): pair form for dataset-dataset and joins folded in operand order, group form for aggregations, '
                         'enumerated rules per datapoint and aggregate rules over the whole operand for row-preserving operators; min / max skip nulls in pairs, sum / avg do not',
                         'an enumerated rule folded over a group of more than two values may depend on the order of the fold; where it does (or the group has more than 5 datapoints) the value is '
-                        'not judged, only its independence of the input order; analytic functions, hierarchies and validations with viral attributes are not modelled']
+                        'not judged, only its independence of the input order; dataset-level analytic invocations take the rule over the whole partition; hierarchies and validations with viral attributes are not modelled']
 
 
 def referenced(t):
